@@ -4,6 +4,7 @@ Property theorems of the tree area (bintree.c, rbtree.c, map.c).
   PropsC01.lean  C01: ordered trees hold exactly the inserted-minus-erased multiset, in order
                  (binary tree and red-black tree; traversal; stop rule; histories)
   PropsC02.lean  C02: red-black rules after every insert and erase; height bound; histories
+  PropsSwap.lean C01/C02: histories over two trees with swap (pair of multisets; rules for both trees)
   PropsC08.lean  C08: the map keeps exactly one entry per key; allocation ledger; histories
                  (C15, tree/map part: clear_spec, clear_reinit, clearTrace_*, mapClear_spec)
 
@@ -13,3 +14,4 @@ History.lean defines the operation histories the `run_*` theorems quantify over.
 import Cstl.Tree.PropsC02
 import Cstl.Tree.PropsC01
 import Cstl.Tree.PropsC08
+import Cstl.Tree.PropsSwap
